@@ -296,6 +296,10 @@ func (c *zzConc) stamp() int64 {
 }
 
 func zzRunC14(r *sim.Run) {
+	if r.Config == "create" {
+		zzRunC14Create(r)
+		return
+	}
 	t := r.T
 	e := zzNewEnv(r)
 	defer e.shutdown()
@@ -731,4 +735,252 @@ func zzRaceReports(from int64) []zzRaceReport {
 		out = append(out, rep)
 	}
 	return out
+}
+
+
+// ---------------------------------------------------------------------------------------------
+// configuration "create": concurrent NewKeystore / Unlock / listing on a wallet that starts empty
+
+type zzKIn struct {
+	Kind int // 0 NewKeystore, 1 Unlock, 2 ListKeystoreNames, 3 restart+Unlock (sequential, end)
+	Pass int
+	Seed int
+}
+
+type zzKOut struct {
+	Err     bool
+	ErrText string
+	ID      string
+	Count   int
+	Panic   string
+}
+
+type zzKState struct {
+	Pass     int    // -1 = no keystore yet
+	IDs      string // sorted, comma-joined
+	Unlocked bool
+}
+
+func (in zzKIn) String() string {
+	switch in.Kind {
+	case 0:
+		return fmt.Sprintf("NewKeystore(passphrase #%d, seed #%d)", in.Pass, in.Seed)
+	case 1:
+		return fmt.Sprintf("Unlock(passphrase #%d)", in.Pass)
+	case 2:
+		return "ListKeystoreNames()"
+	}
+	return fmt.Sprintf("restart, Unlock(passphrase #%d)", in.Pass)
+}
+
+var zzKRefID map[int]string // seed -> keystore id (from a sequential reference wallet)
+var zzKInit zzKState
+
+func zzKHas(ids, id string) bool {
+	for _, x := range strings.Split(ids, ",") {
+		if x == id && x != "" {
+			return true
+		}
+	}
+	return false
+}
+
+var zzKModel = porcupine.Model{
+	Init: func() interface{} { return zzKInit },
+	Step: func(state, input, output interface{}) (bool, interface{}) {
+		st, in, out := state.(zzKState), input.(zzKIn), output.(zzKOut)
+		if out.Panic != "" {
+			return false, st
+		}
+		switch in.Kind {
+		case 0:
+			id := zzKRefID[in.Seed]
+			if (st.Pass >= 0 && st.Pass != in.Pass) || zzKHas(st.IDs, id) {
+				return out.Err, st // another private passphrase, or the same seed again: refused
+			}
+			if out.Err || out.ID != id {
+				return false, st
+			}
+			ids := append(strings.Split(st.IDs, ","), id)
+			sort.Strings(ids)
+			st.IDs = strings.Trim(strings.Join(ids, ","), ",")
+			st.Pass = in.Pass
+			return true, st
+		case 1, 3:
+			if in.Kind == 3 {
+				st.Unlocked = false // restarted
+			}
+			if st.Pass < 0 || (st.Unlocked && in.Pass == st.Pass) {
+				// nothing to unlock, or already unlocked with this passphrase: no property speaks about it
+				if !out.Err {
+					st.Unlocked = true
+				}
+				return true, st
+			}
+			if in.Pass != st.Pass {
+				return out.Err, st
+			}
+			st.Unlocked = true
+			return !out.Err, st
+		case 2:
+			n := 0
+			if st.IDs != "" {
+				n = len(strings.Split(st.IDs, ","))
+			}
+			return out.Count == n, st
+		}
+		return false, st
+	},
+	Equal: func(a, b interface{}) bool { return a.(zzKState) == b.(zzKState) },
+	DescribeOperation: func(input, output interface{}) string {
+		o := output.(zzKOut)
+		e := ""
+		if o.Err {
+			e = " err=" + o.ErrText
+		}
+		return fmt.Sprintf("%s -> id=%s count=%d%s%s", input.(zzKIn), zzShort(o.ID), o.Count, e, o.Panic)
+	},
+}
+
+func zzRunC14Create(r *sim.Run) {
+	t := r.T
+	e := zzNewEnv(r)
+	defer e.shutdown()
+	e.disk.StepFn = nil
+	r.StepBudget = 0
+	c := &zzConc{r: r, e: e, w: e.w[0], refIdx: map[string][2]int{}}
+	c.pub = []byte("publicPassC14")
+	passes := [][]byte{[]byte("privatePassOne"), []byte("privatePassTwo")}
+	// keystore ids per seed, from a sequential reference wallet
+	zzKRefID = map[int]string{}
+	if err := c.openGated(e.w[1]); err != nil {
+		sim.EngineError("reference wallet: %v", err)
+	}
+	for sd := 0; sd < 4; sd++ {
+		id, err := e.w[1].kmc.NewKeystore(append([]byte{}, passes[0]...), zzSeedBytes(sd), "ref", config.ChainParams, e.fastScrypt())
+		if err != nil {
+			sim.EngineError("reference keystore: %v", err)
+		}
+		zzKRefID[sd] = id
+	}
+	e.closeWallet(e.w[1])
+	if err := c.openGated(c.w); err != nil {
+		sim.EngineError("wallet: %v", err)
+	}
+	zzKInit = zzKState{Pass: -1}
+	if t.Bool("create.prefix", 1, 3) {
+		p := t.Choose("create.prefix.pass", 2)
+		if _, err := c.w.kmc.NewKeystore(append([]byte{}, passes[p]...), zzSeedBytes(3), "first", config.ChainParams, e.fastScrypt()); err != nil {
+			sim.EngineError("prefix keystore: %v", err)
+		}
+		zzKInit = zzKState{Pass: p, IDs: zzKRefID[3]}
+	}
+	nClients := 2 + t.Choose("nclients", 2)
+	progs := make([][]zzKIn, nClients)
+	for k := range progs {
+		n := 1 + t.Choose("nops", 3)
+		for i := 0; i < n; i++ {
+			in := zzKIn{Kind: t.Weighted("create.kind", []int{5, 2, 2})}
+			in.Pass = t.Choose("create.pass", 2)
+			in.Seed = t.Choose("create.seed", 3)
+			progs[k] = append(progs[k], in)
+			r.Event("client %d: %s", k, in)
+		}
+	}
+	hist := make([][]porcupine.Operation, nClients+1)
+	exec := func(in zzKIn) (out zzKOut) {
+		defer func() {
+			if v := recover(); v != nil {
+				out.Panic = " PANIC " + fmt.Sprint(v)
+			}
+		}()
+		kmc := c.w.kmc
+		switch in.Kind {
+		case 0:
+			id, err := kmc.NewKeystore(append([]byte{}, passes[in.Pass]...), zzSeedBytes(in.Seed), fmt.Sprintf("ks-%d", in.Seed), config.ChainParams, e.fastScrypt())
+			out.ID = id
+			if err != nil {
+				out.Err, out.ErrText = true, err.Error()
+			}
+		case 1:
+			if err := kmc.Unlock(append([]byte{}, passes[in.Pass]...)); err != nil {
+				out.Err, out.ErrText = true, err.Error()
+			}
+		case 2:
+			out.Count = len(kmc.ListKeystoreNames())
+		case 3:
+			e.closeWallet(c.w)
+			if err := c.openGated(c.w); err != nil {
+				out.Err, out.ErrText = true, "reopen: "+err.Error()
+				return
+			}
+			if err := c.w.kmc.Unlock(append([]byte{}, passes[in.Pass]...)); err != nil {
+				out.Err, out.ErrText = true, err.Error()
+			}
+		}
+		return
+	}
+	do := func(client int, in zzKIn) {
+		call := c.stamp()
+		out := exec(in)
+		ret := c.stamp()
+		hist[client] = append(hist[client], porcupine.Operation{ClientId: client, Input: in, Call: call, Output: out, Return: ret})
+	}
+	raceBefore := zzRaceLogSize()
+	eng := &vtok.Engine{Choose: t.Choose, MaxSteps: 200000}
+	clients := make([]func(), nClients)
+	for k := range clients {
+		k := k
+		clients[k] = func() {
+			for _, in := range progs[k] {
+				vsim.Yield("client invokes")
+				do(k, in)
+			}
+		}
+	}
+	prevE := vsim.E
+	vsim.E = eng
+	vtok.Cur = eng
+	eng.Run(clients)
+	vtok.Cur = nil
+	vsim.E = prevE
+	r.Preempts += eng.Preempt
+	r.Count("sched-steps", eng.Steps)
+	if eng.Deadlocked || eng.OutOfSteps {
+		r.Fail("C14/deadlock/clients", "the clients did not finish: parked at %v", eng.Parked())
+		return
+	}
+	for k, p := range eng.Panics() {
+		if p != nil {
+			r.Fail("C14/panic/client", "client %d panicked: %v", k, p)
+		}
+	}
+	// the end of the history: both passphrases are tried after a restart - exactly the current one unlocks
+	do(nClients, zzKIn{Kind: 2})
+	do(nClients, zzKIn{Kind: 3, Pass: 0})
+	do(nClients, zzKIn{Kind: 3, Pass: 1})
+	do(nClients, zzKIn{Kind: 2})
+	for _, rep := range zzRaceReports(raceBefore) {
+		if rep.sig == "" {
+			r.Count("race-outside-repository", 1)
+			continue
+		}
+		r.FailUnhashed("C14/data-race/"+rep.sig, "the race detector reports unsynchronised accesses:\n%s", rep.text)
+	}
+	var ops []porcupine.Operation
+	for k := range hist {
+		ops = append(ops, hist[k]...)
+	}
+	sort.Slice(ops, func(i, j int) bool { return ops[i].Call < ops[j].Call })
+	for _, op := range ops {
+		r.Event("[%d..%d] client %d: %s", op.Call, op.Return, op.ClientId, zzKModel.DescribeOperation(op.Input, op.Output))
+	}
+	r.Ops += len(ops)
+	switch res, _ := porcupine.CheckOperationsVerbose(zzKModel, ops, 10*time.Second); res {
+	case porcupine.Illegal:
+		r.Fail("C14/not-linearizable/keystore-creation", "no sequential order of the %d operations, consistent with their real-time order, explains the results (initial state %+v)", len(ops), zzKInit)
+	case porcupine.Unknown:
+		r.Count("inconclusive:linearizability-timeout", 1)
+	}
+	r.State(zzHash64(fmt.Sprint(zzKInit, nClients)))
 }
